@@ -10,6 +10,7 @@ import (
 	"os/exec"
 	"path/filepath"
 	"regexp"
+	"sort"
 	"strconv"
 	"strings"
 	"time"
@@ -214,6 +215,7 @@ type JudgeResult struct {
 // Large logs are cut at case boundaries ("Config" sections, then "Req"/"Reset" events, the
 // section's Config repeated) and judged by several TLC processes in parallel.
 func Judge(module string, events [][]byte, extra map[string][]byte) (JudgeResult, error) {
+	events = selfTestCorrupt(events)
 	const chunkMin = 12000
 	if len(events) <= chunkMin {
 		return judgeOne(module, events, extra, 0)
@@ -348,4 +350,92 @@ func judgeOne(module string, events [][]byte, extra map[string][]byte, offset in
 		return jr, fmt.Errorf("judge %s: END at %d, expected %d", module, jr.EndAt, len(events)+1)
 	}
 	return jr, nil
+}
+
+// selfTestCorrupt implements the binding self-test (DESIGN §10): with VERIF_CORRUPT=k the k-th case event of the
+// recorded log gets one field changed (a boolean flipped, else a number incremented, else a string altered), with
+// VERIF_DROP=k it is removed.  A judge that still accepts the log is not bound to what was recorded.
+func selfTestCorrupt(events [][]byte) [][]byte {
+	ck, dk := os.Getenv("VERIF_CORRUPT"), os.Getenv("VERIF_DROP")
+	if ck == "" && dk == "" {
+		return events
+	}
+	target, _ := strconv.Atoi(ck + dk)
+	n := 0
+	out := make([][]byte, 0, len(events))
+	done := false
+	for _, e := range events {
+		var m map[string]any
+		if json.Unmarshal(e, &m) != nil || done {
+			out = append(out, e)
+			continue
+		}
+		ev, _ := m["ev"].(string)
+		if ev == "Config" || ev == "Schema" || ev == "Cases" || ev == "Reset" || ev == "Req" || ev == "Call" {
+			out = append(out, e)
+			continue
+		}
+		n++
+		if n != target {
+			out = append(out, e)
+			continue
+		}
+		done = true
+		if dk != "" {
+			fmt.Printf("selftest: dropped event %d (%s)\n", n, ev)
+			continue
+		}
+		changed := corruptOne(m)
+		fmt.Printf("selftest: corrupted field %q of event %d (%s)\n", changed, n, ev)
+		bs, _ := json.Marshal(m)
+		out = append(out, bs)
+	}
+	return out
+}
+
+// corruptOne changes one field the judges read: a field of the priority list first, then (for paired
+// observations) inside the first observation, then any boolean / number / string.
+func corruptOne(m map[string]any) string {
+	for _, k := range []string{"ok", "decOK", "encOK", "valid", "parseOK", "builds", "retOK", "has", "custom", "writes", "status", "i", "reports", "op", "tmpl", "type"} {
+		switch v := m[k].(type) {
+		case bool:
+			m[k] = !v
+			return k
+		case float64:
+			m[k] = v + 1
+			return k
+		case string:
+			m[k] = v + "~corrupted"
+			return k
+		}
+	}
+	if a, ok := m["a"].(map[string]any); ok {
+		if k := corruptOne(a); k != "" {
+			return "a." + k
+		}
+	}
+	keys := make([]string, 0, len(m))
+	for k := range m {
+		keys = append(keys, k)
+	}
+	sort.Strings(keys)
+	for _, k := range keys {
+		if b, ok := m[k].(bool); ok {
+			m[k] = !b
+			return k
+		}
+	}
+	for _, k := range keys {
+		if f, ok := m[k].(float64); ok {
+			m[k] = f + 1
+			return k
+		}
+	}
+	for _, k := range keys {
+		if s, ok := m[k].(string); ok && k != "ev" && k != "case" {
+			m[k] = s + "~corrupted"
+			return k
+		}
+	}
+	return ""
 }
